@@ -356,6 +356,18 @@ func newRunEnv() *runEnv {
 			s, err := help.BlockWith(c)
 			return template.HTML(s), err
 		},
+		// ... and that swallows a failure of its block (a placeholder is rendered instead)
+		"blktry": func(data map[string]interface{}, help plush.HelperContext) (template.HTML, error) {
+			c := help.New()
+			for k, v := range data {
+				c.Set(k, v)
+			}
+			s, err := help.BlockWith(c)
+			if err != nil {
+				return "E", nil
+			}
+			return template.HTML(s), nil
+		},
 	}
 	return e
 }
